@@ -4,7 +4,8 @@ generators, conversion to the harness line format (`verif-harness server`) and t
 
 A case is a tuple (link, units, auth, frames):
   link   'tcp' | 'rtu'
-  units  tuple of (uid, m, c, rex, wex, coils, discrete, holding, input)   (tuples of tuples)
+  units  tuple of (uid, m, c, rex, wex, coils, discrete, holding, input)   (tuples of tuples); a 10th field
+         `owner` makes unit id uid hold the SAME handler object as unit id owner (its other fields are unused)
   auth   None | ('ro', role) | ('deny', role) | ('hash', role, seed, pct)     role = bytes (utf-8)
   frames tuple of (tx, dest, pdu)   tx = int (tcp) / None (rtu), dest = unit id byte, pdu = bytes
 On RTU destination byte 0 is the broadcast address.
@@ -65,7 +66,8 @@ def auth_str(auth):
 
 def to_line(case):
     link, units, auth, frames = case
-    us = ';'.join(f'{u[0]}:{u[1]}:{u[2]}:{_tl(u[3])}:{_tl(u[4])}:{_tl(u[5])}:{_tl(u[6])}:{_tl(u[7])}:{_tl(u[8])}' for u in units) or '-'
+    us = ';'.join(f'{u[0]}:={u[9]}' if len(u) > 9 else
+                  f'{u[0]}:{u[1]}:{u[2]}:{_tl(u[3])}:{_tl(u[4])}:{_tl(u[5])}:{_tl(u[6])}:{_tl(u[7])}:{_tl(u[8])}' for u in units) or '-'
     fs = ','.join(adu(link, f).hex().upper() for f in frames) or '-'
     return f'{link}|{us}|{auth_str(auth)}|{fs}'
 
@@ -88,7 +90,9 @@ def _tr(ts):
 
 def to_coq(case):
     link, units, auth, frames = case
-    us = '[' + ';'.join(f'mku {u[0]} {u[1]} {u[2]} {_t3(u[3])} {_t3(u[4])} {_tb(u[5])} {_tb(u[6])} {_tr(u[7])} {_tr(u[8])}' for u in units) + ']'
+    um = '[' + ';'.join(f'({u[0]},{u[9] if len(u) > 9 else u[0]})' for u in units) + ']'
+    us = '[' + ';'.join(f'mku {u[0]} {u[1]} {u[2]} {_t3(u[3])} {_t3(u[4])} {_tb(u[5])} {_tb(u[6])} {_tr(u[7])} {_tr(u[8])}'
+                        for u in units if len(u) <= 9) + ']'
     if auth is None:
         a = 'CNone'
     elif auth[0] == 'ro':
@@ -102,7 +106,7 @@ def to_coq(case):
         d = 'DBroadcast' if (link == 'rtu' and dest == 0) else f'(DUnit {dest})'
         t = 'None' if tx is None else f'(Some {tx})'
         fl.append(f'mkf {t} {d} {_nl(pdu)}')
-    return f'({"LTcp" if link == "tcp" else "LRtu"}, {us}, {a}, [{";".join(fl)}])'
+    return f'({"LTcp" if link == "tcp" else "LRtu"}, {um}, {us}, {a}, [{";".join(fl)}])'
 
 
 # ------------------------------------------------------------------------------------------ classification (statistics only)
@@ -287,7 +291,29 @@ def gen_units(r, k=None, frames_hint=()):
                 pts[kk].append((a, r.randrange(2) if kk < 2 else r.randrange(65536)))
         units.append((uid, r.choice([1, 3, 5, 7, 251, 4099, r.randrange(1, 65536)]), r.randrange(65536), tuple(rex), tuple(wex),
                       tuple(pts[0]), tuple(pts[1]), tuple(pts[2]), tuple(pts[3])))
-    return tuple(units)
+    return share_some(r, tuple(units))
+
+
+def share_some(r, units, p=0.25):
+    """with probability p (and at least two units) let one unit id hold another unit's handler object"""
+    if len(units) >= 2 and r.random() < p:
+        i, j = r.sample(range(len(units)), 2)
+        units = list(units)
+        units[i] = shared_unit(units[i][0], units[j][0])
+        if len(units) == 3 and r.random() < 0.3:
+            k = 3 - i - j
+            units[k] = shared_unit(units[k][0], units[j][0])
+        units = tuple(units)
+    return units
+
+
+def shared_unit(uid, owner):
+    return (uid, 0, 0, (), (), (), (), (), (), owner)
+
+
+def units_valid(units):
+    owners = [u[0] for u in units if len(u) <= 9]
+    return all(u[9] in owners for u in units if len(u) > 9)
 
 
 def pick_dest(r, link, units, p_conf=0.8):
@@ -422,8 +448,11 @@ def shrink_candidates(case):
     for i in range(len(frames)):
         yield (link, units, auth, frames[:i] + frames[i + 1:])
     for i in range(len(units)):
-        yield (link, units[:i] + units[i + 1:], auth, frames)
+        if units_valid(units[:i] + units[i + 1:]):
+            yield (link, units[:i] + units[i + 1:], auth, frames)
     for i, u in enumerate(units):
+        if len(u) > 9:
+            continue
         for j in (3, 4, 5, 6, 7, 8):
             if u[j]:
                 yield (link, units[:i] + (u[:j] + ((),) + u[j + 1:],) + units[i + 1:], auth, frames)
@@ -612,6 +641,7 @@ def coverage(ctx, cases, impl, rule, extra_classes=None):
     classes['sessions:tcp'] = sum(1 for c in cases if c[0] == 'tcp')
     classes['sessions:rtu'] = sum(1 for c in cases if c[0] == 'rtu')
     classes['sessions:with-authorization'] = sum(1 for c in cases if c[2] is not None)
+    classes['sessions:with-shared-handler-object'] = sum(1 for c in cases if any(len(u) > 9 for u in c[1]))
     for k in range(4):
         classes[f'sessions:units={k}'] = sum(1 for c in cases if len(c[1]) == k)
     classes['frames'] = sum(len(c[3]) for c in cases)
